@@ -3,3 +3,4 @@ import HvProps.C08
 import HvProps.C04
 import HvProps.C06
 import HvProps.C03
+import HvProps.C02
